@@ -13,7 +13,7 @@ from layout import relayout, mutate, tokens
 
 S = Sym
 PROPERTY = 'C01'
-PROPS_MODULES = ['C01', 'C01b', 'C01c', 'C01d', 'C06d', 'C06g', 'C18b', 'C18c', 'C01e', 'C18e', 'C01f']
+PROPS_MODULES = ['C01', 'C01b', 'C01c', 'C01d', 'C06d', 'C06g', 'C18b', 'C18c', 'C01e', 'C18e', 'C01f', 'C01g']
 ASSUMPTIONS = ['float literal values are compared as the decimal their token denotes (12 significant digits)',
                'for mutated texts with several defects the error *class* may differ between Lark (first defect in LALR reduce order) and the '
                'model (syntax first); accept/reject must agree']
